@@ -54,6 +54,111 @@ class sort_by_gid_alone:
     native = False
 
 
+def _srt(calls):
+    return calls["builtins.sorted"][0]
+
+
+def _gid(g):
+    return ufn("glyph_id", "int", g)
+
+
+@contract("nanoemoji.reorder_glyphs._sort_by_gid", props=["C11"])
+class sort_by_gid_paired_any_length:
+    """Unbounded: coverage and parallel list of any (equal) length.  The only axiom is the
+    semantics of the builtin `sorted` (a key-ordered, stable rearrangement by a bijection, see
+    vc/builtins_.seq_sorted); what is proved is that the real function's data flow -- zip, the key
+    taken from the glyph, the unzip and both slice assignments -- carries it to both lists."""
+
+    args = {"get_glyph_id": _GID, "glyphs": SeqOf(Str), "parallel_list": SeqOf(Int)}
+    requires = [lambda glyphs, parallel_list: len(glyphs) == len(parallel_list)]
+    assumes = ["builtin sorted(): result is the input rearranged by a bijection of its index range, keys non-decreasing, equal keys in source order (axiom, not derived from CPython's listsort)"]
+    ensures = {
+        "lengths-kept": lambda glyphs, parallel_list, old: len(glyphs) == len(old.glyphs) and len(parallel_list) == len(old.parallel_list),
+        "coverage-sorted-by-glyph-id": lambda glyphs: forall(0, len(glyphs) - 1, lambda i: _gid(glyphs[i]) <= _gid(glyphs[i + 1])),
+        # arrays indexed by coverage stay paired with their glyphs: ONE bijection moves both
+        "pairing-preserved": lambda glyphs, parallel_list, old, calls: forall(
+            0, len(glyphs), lambda i: glyphs[i] == old.glyphs[_srt(calls).perm(i)] and parallel_list[i] == old.parallel_list[_srt(calls).perm(i)]
+        ),
+        "rearrangement-is-a-bijection": lambda glyphs, calls: forall(
+            0,
+            len(glyphs),
+            lambda i: 0 <= _srt(calls).perm(i)
+            and _srt(calls).perm(i) < len(glyphs)
+            and _srt(calls).inv(_srt(calls).perm(i)) == i
+            and 0 <= _srt(calls).inv(i)
+            and _srt(calls).inv(i) < len(glyphs)
+            and _srt(calls).perm(_srt(calls).inv(i)) == i,
+        ),
+        # nothing is lost: the old pair j is found at position inv(j)
+        "every-old-pair-still-present": lambda glyphs, parallel_list, old, calls: forall(
+            0, len(glyphs), lambda j: glyphs[_srt(calls).inv(j)] == old.glyphs[j] and parallel_list[_srt(calls).inv(j)] == old.parallel_list[j]
+        ),
+    }
+    native = False
+
+
+@contract("nanoemoji.reorder_glyphs._sort_by_gid", props=["C11"])
+class sort_by_gid_alone_any_length:
+    """Unbounded: a coverage of any length without a parallel list."""
+
+    args = {"get_glyph_id": _GID, "glyphs": SeqOf(Str), "parallel_list": Const(None)}
+    assumes = ["builtin sorted(): as for sort_by_gid_paired_any_length"]
+    ensures = {
+        "length-kept": lambda glyphs, old: len(glyphs) == len(old.glyphs),
+        "coverage-sorted-by-glyph-id": lambda glyphs: forall(0, len(glyphs) - 1, lambda i: _gid(glyphs[i]) <= _gid(glyphs[i + 1])),
+        "same-glyphs": lambda glyphs, old, calls: forall(0, len(glyphs), lambda i: glyphs[i] == old.glyphs[_srt(calls).perm(i)]),
+        "every-old-glyph-still-present": lambda glyphs, old, calls: forall(0, len(glyphs), lambda j: glyphs[_srt(calls).inv(j)] == old.glyphs[j]),
+        "rearrangement-is-a-bijection": lambda glyphs, calls: forall(
+            0,
+            len(glyphs),
+            lambda i: 0 <= _srt(calls).perm(i)
+            and _srt(calls).perm(i) < len(glyphs)
+            and _srt(calls).inv(_srt(calls).perm(i)) == i
+            and 0 <= _srt(calls).inv(i)
+            and _srt(calls).inv(i) < len(glyphs)
+            and _srt(calls).perm(_srt(calls).inv(i)) == i,
+        ),
+    }
+    native = False
+
+
+_REC = Obj(SecondGlyph=Str, payload=Int)
+
+
+@contract("nanoemoji.reorder_glyphs.ReorderList.apply", props=["C11"])
+class reorder_list_any_length:
+    """Unbounded: the records of a glyph-ordered list (PairSet.PairValueRecord by SecondGlyph)
+    are rearranged as whole records, by a bijection, into glyph-id order of their key glyph."""
+
+    args = {
+        "self": Record("nanoemoji.reorder_glyphs.ReorderList", list_attr=Const("PairValueRecord"), key=Const("SecondGlyph")),
+        "font": Obj(getGlyphID=_GID),
+        "value": Obj(PairValueRecord=SeqOf(_REC)),
+    }
+    assumes = ["builtin list.sort(): as sorted() for sort_by_gid_paired_any_length"]
+    ensures = {
+        "length-kept": lambda value, old: len(value.PairValueRecord) == len(old.value.PairValueRecord),
+        "ordered-by-glyph-id-of-the-key-glyph": lambda value: forall(
+            0, len(value.PairValueRecord) - 1, lambda i: _gid(value.PairValueRecord[i].SecondGlyph) <= _gid(value.PairValueRecord[i + 1].SecondGlyph)
+        ),
+        "records-moved-whole": lambda value, old, calls: forall(
+            0,
+            len(value.PairValueRecord),
+            lambda i: value.PairValueRecord[i].SecondGlyph == old.value.PairValueRecord[_srt(calls).perm(i)].SecondGlyph
+            and value.PairValueRecord[i].payload == old.value.PairValueRecord[_srt(calls).perm(i)].payload,
+        ),
+        "nothing-lost": lambda value, old, calls: forall(
+            0,
+            len(value.PairValueRecord),
+            lambda j: value.PairValueRecord[_srt(calls).inv(j)].SecondGlyph == old.value.PairValueRecord[j].SecondGlyph
+            and value.PairValueRecord[_srt(calls).inv(j)].payload == old.value.PairValueRecord[j].payload
+            and 0 <= _srt(calls).inv(j)
+            and _srt(calls).inv(j) < len(value.PairValueRecord),
+        ),
+    }
+    native = False
+
+
 @contract("nanoemoji.reorder_glyphs.reorder_glyphs", props=["C11"])
 class rules_against_the_spec:
     bounded_only = True
